@@ -124,7 +124,8 @@ def pole_zero_response(run, h, rng):
         zeros = [0j, 0j]
         sens, a0 = (400.0, 1.0) if k_ == 0 else (1.5e3, 2.5)
         sensors.append((poles, zeros, sens, a0, InstrumentTransferFunction(poles=poles, zeros=zeros, instrument_sensitivity=sens, normalization_factor=a0)))
-    plan = [(200, 100.0, 0), (200, 50.0, 0), (200, 200.0, 0), (255, 100.0, 1), (255, 50.0, 1), (128, 100.0, 1)]
+    plan = [(200, 100.0, 0), (200, 50.0, 0), (200, 200.0, 0), (255, 100.0, 1), (255, 50.0, 1), (128, 100.0, 1), (180, 50.0, 0), (190, 200.0, 0)]
+    shared_settings = {}
     for trial in range(len(plan) if run.quick else 20):
         n, fs, k_ = plan[trial] if trial < len(plan) else (int(rng.choice([128, 200, 255])), float(rng.choice([50.0, 100.0])), trial % 2)
         dt = 1.0 / fs
@@ -132,21 +133,32 @@ def pole_zero_response(run, h, rng):
         width = float(rng.choice([0.0, 0.3]))
         y = rng.normal(size=n) + 3.0
         rec = h.SeismicRecording3C(ts(y, dt), ts(2 * y, dt), ts(y[::-1], dt))
-        st = h.PsdPreProcessingSettings(orient_to_degrees_from_north=None, filter_corner_frequencies_in_hz=[None, None], window_length_in_seconds=None,
-                                        detrend=None, window_type_and_width=["tukey", width], fft_settings={"n": None}, instrument_transfer_function=itf)
+        if trial % 2 == 0 or k_ not in shared_settings:
+            st = h.PsdPreProcessingSettings(orient_to_degrees_from_north=None, filter_corner_frequencies_in_hz=[None, None], window_length_in_seconds=None,
+                                            detrend=None, window_type_and_width=["tukey", width], fft_settings={"n": None}, instrument_transfer_function=itf)
+            shared_settings.setdefault(k_, st)
+        if trial % 2 == 1:
+            # ONE settings object (and with it one response object) for the sessions of a sensor, whatever their sampling rate;
+            # the FFT length is whatever the settings object holds after the call
+            st = shared_settings[k_]
+            st.window_type_and_width = ["tukey", width]
         with warnings.catch_warnings():
             warnings.simplefilter("ignore")
             out = h.preprocess([copy.deepcopy(rec)], st)[0]
+        nfft = (st.fft_settings or {}).get("n") or n
+        if nfft < n:
+            run.violation("psd-pre:fft-shorter-than-record", f"n={n}: the settings hold an FFT length of {nfft} after the call", dict(kind="psd-pz", n=n, fs=fs, trial=trial))
+            continue
         z = (y - y.mean()) * _tukey(n, alpha=width)
-        f = np.fft.rfftfreq(n, dt)
+        f = np.fft.rfftfreq(nfft, dt)
         s_ = 2j * np.pi * f
         H = a0 * sens * np.prod([s_ - zz for zz in zeros], axis=0) / np.prod([s_ - pp for pp in poles], axis=0)
-        X = np.fft.rfft(z)
+        X = np.fft.rfft(z, nfft)
         Y = np.zeros_like(X)
         nz = np.abs(H) > 0
         Y[nz] = X[nz] / H[nz]
         Y[0] = 0
-        want = np.fft.irfft(Y, n)
+        want = np.fft.irfft(Y, nfft)[:n]
         scale_ = np.max(np.abs(want))
         if not (np.allclose(out.ns.amplitude, want, atol=1e-9 * scale_) and np.allclose(out.ew.amplitude, 2 * want, atol=2e-9 * scale_)):
             run.violation("psd-pre:pole-zero-response", f"n={n} fs={fs} taper={width} poles={poles} zeros={zeros} S={sens} A0={a0}: the output is not the record's spectrum "
